@@ -1,8 +1,8 @@
 """C07 - a listing is exactly the visible entries, once each, in a stable order.
 
 Design model: spec/Dir.tla via MC_C07 (filter with the ignore pattern as DATA on selectorbase/name, UMN
-diversion of dot-files during enumeration, sort, resolve, merge link files, entrycmp sort; every
-permutation of the OS enumeration order).  B1: the shipped ignorepatt, the documented buck-only pattern
+diversion of dot-files during enumeration, reading the link files, sort, resolve, merge link files, entrycmp
+sort; every permutation of the OS enumeration order).  B1: the shipped ignorepatt, the documented buck-only pattern
 and the handler list are read from the tree and become TLC constants; the probe names are derived from
 the pattern's alternatives.  B2: every initial state of MC_C07 (GenSpec dump) is built as a real tree and
 listed through the real server once per permutation (substituted os.listdir), then every child is
@@ -22,7 +22,7 @@ CONSTANTS
   IgnorePatterns <- DataIgnorePatterns
   EaExts <- DataEaExts
   SkipUnservable = TRUE
-  SortedEnum = %(sorted)s
+  SortedLinks = %(sorted)s
   DotRuleAll = %(dotrule)s
   Suites <- %(suites)s
 %(props)s
@@ -33,7 +33,7 @@ CONSTANTS
   IgnorePatterns <- DataIgnorePatterns
   EaExts <- DataEaExts
   SkipUnservable = TRUE
-  SortedEnum = TRUE
+  SortedLinks = TRUE
   DotRuleAll = %(dotrule)s
 CONSTRAINT Record
 POSTCONDITION Post
@@ -160,16 +160,12 @@ def main(chk, replay=None):
         raise core.MachineryError("C07: the documented buck-only ignorepatt comment was not found in conf/pygopherd.conf")
     data_text, _pats, lists = dl.data_module(conf)
     extra = {"MC_C07_data.tla": data_text, "TraceC07_run.cfg": TR_CFG % dict(dotrule=DOTRULE)}
-    # 1. design model: repaired code (Exact, OrderFree); the code's enumeration-order processing (Exact on every
-    #    permutation; OrderFree must FAIL there: witness that the model expresses the link-file defect)
+    # 1. design model of the code (link files read in name order): Exact, OrderFree on every permutation of every directory;
+    #    witness: with link files read in enumeration order (the tree before 5b6ecc2) OrderFree must FAIL in the model
     res = tlc.check_model("MC_C07", "MC_C07_run.cfg", coverage=True, timeout=3000,
                           extra_files=dict(extra, **{"MC_C07_run.cfg": _cfg(t)}))
     if res["inv_violations"]:
         chk.model_violation("MC_C07", res["inv_violations"], res["out"][-3000:])
-    res2 = tlc.check_model("MC_C07", "MC_C07_enum.cfg", timeout=3000, extra_files=dict(extra, **{
-        "MC_C07_enum.cfg": _cfg(t, sorted_="FALSE", props="INVARIANT Exact\nINVARIANT StepsAreFolds")}))
-    if res2["inv_violations"]:
-        chk.model_violation("MC_C07(enumeration order)", res2["inv_violations"], res2["out"][-3000:])
     wit = tlc.run_tlc("MC_C07", "MC_C07_wit.cfg", timeout=1500, extra_files=dict(extra, **{
         "MC_C07_wit.cfg": _cfg(t, sorted_="FALSE", props="INVARIANT OrderFree", suites="SuitesQuick")}))
     wit2 = tlc.run_tlc("MC_C07", "MC_C07_wit2.cfg", timeout=1500, extra_files=dict(extra, **{
@@ -223,7 +219,7 @@ def main(chk, replay=None):
     if not replay and nontrivial == 0:
         raise core.MachineryError("C07: no directory with both hidden and listed entries was exercised")
     cov = {
-        "states": res["distinct"] + res2["distinct"], "transitions": res["generated"] + res2["generated"], "exhaustive": True,
+        "states": res["distinct"], "transitions": res["generated"], "exhaustive": True,
         "traces_validated_against_impl": tv["accepted"], "traces_rejected": len(tv["rejected"]),
         "evaluations": enums, "distinct_nontrivial": nontrivial,
         "rule": "cases = every initial state of MC_C07 (suites %s: base entries + probe names derived from the shipped ignore "
@@ -231,7 +227,7 @@ def main(chk, replay=None):
                 "listings) and every child fetched by exact selector; non-trivial = distinct directory in which at least one "
                 "child was kept out of the listing and at least one was listed" % t["suites"],
         "samples": [{"id": tr["id"], "events": tr["events"][:3] + tr["events"][-3:]} for tr in traces[:2]],
-        "checker_cmd": res["cmd"] + " ; " + res2["cmd"] + " ; " + tv["cmd"],
+        "checker_cmd": res["cmd"] + " ; " + tv["cmd"],
         "directories": len(traces), "listings": enums, "generation_states": gen_states, "trace_states": tv["states"],
         "rejection_classes": classes, "witness_enum_order_model_violates": wit["inv_violations"], "selftest": st,
         "probe_names": len(dl.probe_names(_pats)), "patterns": {k: len(v) for k, v in _pats.items()},
